@@ -135,6 +135,11 @@ var templates = []template{
 	{"ctor-unpack", proxy + `local u = {table.unpack(t, 1, 200)} local n = 0 for i = 1, N do local v = {table.unpack(u)} n = n + #v end return n`},
 	{"select-hash", `local function g(n) if n == 0 then return end return E, g(n - 1) end return select('#', g(N))`},
 	{"select-neg", proxy + `return #tostring(select(-1, table.unpack(t, 1, 200)))`},
+	{"select-index", `return select('#', select(N, E, E, E)) + select('#', select(-1, E, E, E))`},
+	{"byte-range", `return select('#', E:byte(-N, N))`},
+	{"sub-range", `return #E:sub(-N, N)`},
+	{"tonumber-base", `return #tostring(tonumber(("z"):rep(N) .. E, 36) or 0)`},
+	{"rep-concat-num", `return #(E:rep(N) .. 1 .. 2.5)`},
 	{"vararg-forward", `local function f(n, ...) if n == 0 then return select('#', ...) end return f(n - 1, E, ...) end return f(N)`},
 }
 
@@ -188,6 +193,10 @@ func startWatchdog() {
 }
 
 func ampFamilies(tier string) []*core.Family {
+	ampNs := ampNs
+	if tier == "thorough" {
+		ampNs = append(append([]int64{}, ampNs...), 60000, 1<<53, 1<<62, 1<<63-1)
+	}
 	nn, ne, nt := uint64(len(ampNs)), uint64(len(ampEs)), uint64(len(templates))
 	// simplest first: all templates at the smallest N, then the next N
 	get := func(i uint64) (template, int64, string) {
